@@ -784,8 +784,10 @@ OPNAMES = {
     "cc": "concat", "cs": "substring", "cn": "contains", "ci": "index_of", "ch": "char_at", "cl": "length", "cf": "from_char",
     "pc": "nl_str_concat", "ps": "nl_str_substring", "pn": "nl_str_contains", "pe": "nl_str_equals", "pi": "int_to_string",
     "pt": "string_to_int", "ph": "char_at", "pf": "string_from_char",
+    "hn": "new", "hp": "put", "hg": "get", "hG": "get_and_hold", "hh": "has", "hr": "remove", "hl": "length", "hx": "clear",
+    "hk": "keys", "hv": "values", "hf": "free", "hH": "held_string", "hA": "held_array",
 }
-CONTAINER = {"a": "dyn_array", "l": "list_int", "m": "list_string", "g": "gc", "s": "nl_string", "c": "nl_cstr", "p": "prelude"}
+CONTAINER = {"a": "dyn_array", "l": "list_int", "m": "list_string", "g": "gc", "s": "nl_string", "c": "nl_cstr", "p": "prelude", "h": "hashmap"}
 
 
 def op_of(line):
@@ -1714,7 +1716,228 @@ class CStrGen:
         return self.ops
 
 
-FAMILIES = [("dyn_array", DAGen, 0.46), ("list", ListGen, 0.14), ("gc", GCGen, 0.18), ("nl_string", StrGen, 0.14), ("cstr", CStrGen, 0.08)]
+# ---- HashMap<K,V> as nanoc generates it: dict model --------------------------------------------------------------------
+class HMGen:
+    """slot -> {"t": "ss"|"si"|"is"|"ii", "d": dict}.  Keys come from a small pool so that re-puts, removes of present keys
+    and probe-chain collisions are frequent.  Table: 16 slots, open addressing with tombstones, doubled when
+    (size + tombstones) reaches 70 %: bursts aim at those boundaries with tombstones present.
+    hold=True: what get / keys / values handed out is read again after later operations (strings are values in the
+    language: they must not change or die with the map)."""
+
+    def __init__(self, r, h, nops, hold=False):
+        self.r = r
+        self.h = h
+        self.nops = nops
+        self.hold = hold
+        self.m = {}
+        self.held_s = {}       # hold slot -> bytes
+        self.held_a = {}       # hold slot -> sorted printed list
+        self.ops = {}
+        self.skeys = [rand_cstr(r) for _ in range(r.choice([6, 20, 60, 150]))] + [b"", b"a", b"b"]
+        self.ikeys = [r.choice(BOUNDARY_INTS) for _ in range(8)] + list(range(r.choice([8, 24, 100]))) + [16 * i for i in range(12)]
+
+    def count(self, op, t):
+        key = "%s.hashmap_%s" % (OPNAMES[op], t)
+        self.ops[key] = self.ops.get(key, 0) + 1
+        self.h.elem_kinds.add("hashmap_" + t)
+
+    def emit(self, line, result, s):
+        t = self.m[s]["t"] if s in self.m else "?"
+        self.h.x(line, result, " | size=%d" % len(self.m[s]["d"]) if s in self.m else "")
+        self.count(op_of(line), t)
+        if s in self.m and len(self.m[s]["d"]) > self.h.maxlen:
+            self.h.maxlen = len(self.m[s]["d"])
+
+    def key(self, s, present=None):
+        """(token, model key) - present=True picks a key of the map when there is one"""
+        d = self.m[s]
+        r = self.r
+        if present and d["d"]:
+            k = r.choice(list(d["d"]))
+        elif d["t"][0] == "s":
+            k = r.choice(self.skeys)
+        else:
+            k = r.choice(self.ikeys)
+        return (hx(k) if d["t"][0] == "s" else str(k)), k
+
+    def val(self, s):
+        if self.m[s]["t"][1] == "s":
+            b = rand_cstr(self.r)
+            return hx(b), b
+        v = self.r.choice(BOUNDARY_INTS) if self.r.random() < 0.3 else self.r.randint(-1000, 1000)
+        return str(v), v
+
+    def show(self, s, v, which):
+        return (hx(v) if self.m[s]["t"][which] == "s" else str(v))
+
+    def sorted_shown(self, s, items, which):
+        if self.m[s]["t"][which] == "s":
+            return [hx(b) for b in sorted(items)]
+        return [str(i) for i in sorted(items)]
+
+    def new(self):
+        c = [x for x in range(6) if x not in self.m]
+        if not c:
+            return False
+        s = self.r.choice(c)
+        t = self.r.choice(["ss", "ss", "si", "is", "is", "ii"])
+        self.m[s] = {"t": t, "d": {}}
+        self.emit("hn %d %s" % (s, t), "ok", s)
+        return True
+
+    def put(self, s, present=None):
+        kt, k = self.key(s, present)
+        vt, v = self.val(s)
+        self.m[s]["d"][k] = v
+        self.emit("hp %d %s %s" % (s, kt, vt), "ok", s)
+
+    def remove(self, s, present=True):
+        kt, k = self.key(s, present)
+        self.m[s]["d"].pop(k, None)
+        self.emit("hr %d %s" % (s, kt), "ok", s)
+
+    def get(self, s, present=True):
+        kt, k = self.key(s, present)
+        d = self.m[s]
+        missing = b"" if d["t"][1] == "s" else 0
+        v = d["d"].get(k, missing)
+        if self.hold and d["t"][1] == "s" and self.r.random() < 0.5:
+            hs = self.r.randrange(8)
+            self.held_s[hs] = v
+            self.emit("hG %d %s %d" % (s, kt, hs), self.show(s, v, 1), s)
+        else:
+            self.emit("hg %d %s" % (s, kt), self.show(s, v, 1), s)
+
+    def keys_values(self, s):
+        d = self.m[s]
+        hs = self.r.randrange(8)
+        if self.r.random() < 0.5:
+            shown = self.sorted_shown(s, list(d["d"].keys()), 0)
+            self.emit("hk %d %d" % (s, hs), "[%s]" % " ".join(shown), s)
+        else:
+            shown = self.sorted_shown(s, list(d["d"].values()), 1)
+            self.emit("hv %d %d" % (s, hs), "[%s]" % " ".join(shown), s)
+        self.held_a[hs] = shown
+
+    def reread(self):
+        r = self.r
+        if self.held_s and r.random() < 0.5:
+            hs = r.choice(list(self.held_s))
+            self.h.x("hH %d" % hs, hx(self.held_s[hs]))
+            self.count("hH", "*")
+        elif self.held_a:
+            hs = r.choice(list(self.held_a))
+            self.h.x("hA %d" % hs, "[%s]" % " ".join(self.held_a[hs]))
+            self.count("hA", "*")
+
+    def clear(self, s):
+        self.m[s]["d"].clear()
+        self.emit("hx %d" % s, "ok", s)
+
+    def free(self, s):
+        t = self.m.pop(s)["t"]
+        self.h.x("hf %d" % s, "ok")
+        self.count("hf", t)
+
+    def room(self):
+        return self.nops - len(self.h.lines) - len(self.m) - 9      # closing sequence + the longest unchecked burst step
+
+    def burst(self):
+        """the shapes the tombstone handling depends on"""
+        r = self.r
+        s = r.choice(list(self.m))
+        d = self.m[s]["d"]
+        k = r.random()
+        if k < 0.25:
+            # fill towards a growth boundary (12, 23, 45, 90 occupied-or-tombstone slots) with removes on the way
+            target = r.choice([11, 12, 13, 22, 23, 24, 45, 46, 90])
+            n = 0
+            while len(d) < target and self.room() > 2 and n < 140:
+                n += 1
+                self.put(s, present=False)
+                if r.random() < 0.25 and d:
+                    self.remove(s)
+        elif k < 0.45:
+            # remove, then clear (or free) while the tombstones are still there
+            for _ in range(r.randint(1, 6)):
+                if d and self.room() > 2:
+                    self.remove(s)
+            if r.random() < 0.7:
+                self.clear(s)
+                if r.random() < 0.6 and self.room() > 1:
+                    self.put(s)
+            else:
+                self.free(s)
+        elif k < 0.65:
+            # remove, then put the same key / a different key again
+            if d:
+                kt, key = self.key(s, True)
+                del d[key]
+                self.emit("hr %d %s" % (s, kt), "ok", s)
+                if r.random() < 0.6:
+                    vt, v = self.val(s)
+                    d[key] = v
+                    self.emit("hp %d %s %s" % (s, kt, vt), "ok", s)
+                else:
+                    self.put(s, present=False)
+                self.get(s, True)
+        elif k < 0.85:
+            # many removes
+            while d and self.room() > 2 and r.random() < 0.9:
+                self.remove(s)
+        else:
+            # clear, then reuse
+            self.clear(s)
+            for _ in range(r.randint(1, 14)):
+                if self.room() > 1:
+                    self.put(s, present=False)
+
+    def run(self):
+        r = self.r
+        self.new()
+        guard = 0
+        while self.room() > 0 and guard < self.nops * 5:
+            guard += 1
+            if not self.m or r.random() < 0.03:
+                self.new()
+                continue
+            if r.random() < 0.12:
+                self.burst()
+                continue
+            s = r.choice(list(self.m))
+            k = r.random()
+            if k < 0.34:
+                self.put(s, present=r.random() < 0.35)
+            elif k < 0.50:
+                self.get(s, present=r.random() < 0.7)
+            elif k < 0.58:
+                kt, key = self.key(s, r.random() < 0.6)
+                self.emit("hh %d %s" % (s, kt), "1" if key in self.m[s]["d"] else "0", s)
+            elif k < 0.74:
+                self.remove(s, present=r.random() < 0.75)
+            elif k < 0.77:
+                self.emit("hl %d" % s, str(len(self.m[s]["d"])), s)
+            elif k < 0.80:
+                self.clear(s)
+            elif k < 0.90:
+                self.keys_values(s)
+            elif k < 0.97:
+                if self.hold:
+                    self.reread()
+            else:
+                self.free(s)
+        if self.hold:
+            for _ in range(3):
+                self.reread()
+        for s in sorted(self.m):
+            self.free(s)
+        if self.hold:
+            self.reread()
+        return self.ops
+
+
+FAMILIES = [("dyn_array", DAGen, 0.36), ("list", ListGen, 0.12), ("gc", GCGen, 0.16), ("nl_string", StrGen, 0.12), ("cstr", CStrGen, 0.06),
+            ("hashmap", HMGen, 0.18)]
 
 
 def history_length(r, maxlen):
@@ -1728,7 +1951,7 @@ def history_length(r, maxlen):
     return maxlen
 
 
-def make_history(hid, seed, maxlen):
+def make_history(hid, seed, maxlen, hold=False):
     r = random.Random(seed)
     k = r.random()
     acc = 0.0
@@ -1742,6 +1965,8 @@ def make_history(hid, seed, maxlen):
     n = history_length(r, maxlen)
     if fam == "dyn_array" and r.random() < 0.35:
         g = cls(r, h, n, kinds=r.choice(["s", "a", "t", "i", "f", "sa", "ub"]))     # single-kind histories reach larger sizes
+    elif fam == "hashmap":
+        g = cls(r, h, n, hold=hold)
     else:
         g = cls(r, h, n)
     h.ops = g.run()
@@ -1775,7 +2000,13 @@ DIRECTED_HISTORIES = {
     "shrink_empty": ["sw 0 16", "sh 0", "sr 0 8", "sf 0"],
     # nl_cstr_substring(): start + len overflows
     "cstr_substring_len_max": ["cs 68656c6c6f 1 9223372036854775807"],
+    # map_get() hands out the map's own buffer: a later put of the same key (or remove / clear / free) frees it
+    "map_get_held_after_put": ["hn 0 ss", "hp 0 61 6f6e65", "hG 0 61 0", "hp 0 61 74776f", "hH 0"],
+    # map_keys() / map_values() hand out arrays of the map's own buffers
+    "map_keys_held_after_remove": ["hn 0 ss", "hp 0 61 6f6e65", "hp 0 62 74776f", "hk 0 0", "hr 0 61", "hA 0"],
 }
+# the random hashmap histories read held strings / arrays again only when these cells agree with the model
+HOLD_CELLS = ("map_get_held_after_put", "map_keys_held_after_remove")
 
 
 def directed_expected(name, lines):
@@ -1793,6 +2024,8 @@ def directed_expected(name, lines):
         "utf8_substring_0_0": ["ok | 616263 len=3 capok=1 nt=1 z=1", "valid 1 | 616263 len=3 capok=1 nt=1 z=1", "ok | - len=0 capok=1 nt=0"],
         "shrink_empty": ["ok | - len=0 capok=1 nt=0", "ok | - len=0 capok=1 nt=0", "capge 1 | - len=0 capok=1 nt=0", "ok"],
         "cstr_substring_len_max": ["656c6c6f"],
+        "map_get_held_after_put": ["ok | size=0", "ok | size=1", "6f6e65 | size=1", "ok | size=1", "6f6e65"],
+        "map_keys_held_after_remove": ["ok | size=0", "ok | size=1", "ok | size=2", "[61 62] | size=2", "ok | size=1", "[61 62]"],
     }[name]
     h = Hist("d-" + name, "directed")
     for line, e in zip(lines, E):
@@ -1877,11 +2110,20 @@ def model_key(h, line, cls):
     return "model|%s|%s|%s" % (cont, OPNAMES.get(op, op), cls)
 
 
+# the trivial program whose generated C the probe includes: it instantiates the four HashMap<K,V> types nanoc supports,
+# which makes nanoc emit their runtime (nl_hashmap_<K>_<V>_*) next to the helpers every program carries
+TINY_PROGRAM = "".join(
+    "fn use_%s() -> int {\n    let m: HashMap<%s, %s> = (map_new)\n    (map_put m %s %s)\n    let n: int = (map_size m)\n    (map_free m)\n    return n\n}\n"
+    "shadow use_%s { assert true }\n" % (k[0] + v[0], k, v, '"k"' if k == "string" else "1", '"v"' if v == "string" else "2", k[0] + v[0])
+    for k in ("string", "int") for v in ("string", "int")) + \
+    'fn main() -> int {\n    (println "tiny")\n    return 0\n}\nshadow main { assert true }\n'
+
+
 def build_hist_probe(ctx, sc, asan):
     """Build probes/rt_hist_probe.c the way nanoc builds a program: same wrapper, same flags, same runtime objects.
     Returns (path of the binary, the command line)."""
     d = sc.sub("histprobe")
-    engines.write_files(d, {"tiny.nano": 'fn main() -> int {\n    (println "tiny")\n    return 0\n}\nshadow main { assert true }\n'})
+    engines.write_files(d, {"tiny.nano": TINY_PROGRAM})
     env = asan.fastcc_env({"TMPDIR": d})
     r = sh([asan.nanoc, "tiny.nano", "-o", "tiny.bin", "--keep-c", "--verbose"], cwd=d, env=env, cpu=120, san=True)
     m = re.search(r"^Compiling C code: (.*)$", r.text() + "\n" + r.errtext(), re.M)
@@ -1889,7 +2131,7 @@ def build_hist_probe(ctx, sc, asan):
                 "could not obtain nanoc's C compiler command line / generated C for the history probe: rc=%s %s" % (r.rc, r.errtext()[-300:]))
     args = shlex.split(m.group(1))
     src = os.path.join(build.VERIF, "probes", "rt_hist_probe.c")
-    engines.write_files(d, {"hist_main.c": '#define main nlv_prelude_main\n#include "%s"\n#undef main\n#define NLV_HAVE_PRELUDE 1\n#include "%s"\n'
+    engines.write_files(d, {"hist_main.c": '#define main nlv_prelude_main\n#include "%s"\n#undef main\n#define NLV_HAVE_PRELUDE 1\n#define NLV_HAVE_HASHMAPS 1\n#include "%s"\n'
                                            % (os.path.join(d, "tiny.bin.c"), src)})
     out = []
     skip = False
@@ -1995,8 +2237,8 @@ def judge_batch(binp, cwd, hists):
 
 
 def _hist_worker(args):
-    binp, cwd, items, maxlen = args
-    hists = [make_history(hid, seed, maxlen) for hid, seed in items]
+    binp, cwd, items, maxlen, hold = args
+    hists = [make_history(hid, seed, maxlen, hold) for hid, seed in items]
     res = judge_batch(binp, cwd, hists)
     summary = {"ops": {}, "families": {}, "kinds": {}, "maxlen": {}, "hashes": [], "steps": 0, "verdicts": [], "inconclusive": 0, "sample": None}
     for h, v in res:
@@ -2020,7 +2262,7 @@ def _hist_worker(args):
     return summary
 
 
-def run_histories(ctx, sc, binp, n, maxlen, cov):
+def run_histories(ctx, sc, binp, n, maxlen, cov, hold=False):
     import concurrent.futures as cf
     per = 25 if maxlen <= 200 else 40
     items = [("%06d" % i, ctx.rng("hist", i).getrandbits(64)) for i in range(n)]
@@ -2030,7 +2272,7 @@ def run_histories(ctx, sc, binp, n, maxlen, cov):
     hashes = set()
     samples = []
     with cf.ProcessPoolExecutor(max_workers=min(16, os.cpu_count() or 4)) as ex:
-        for s in ex.map(_hist_worker, [(binp, cwd, b, maxlen) for b in batches], chunksize=1):
+        for s in ex.map(_hist_worker, [(binp, cwd, b, maxlen, hold) for b in batches], chunksize=1):
             for k in ("ops", "families", "kinds"):
                 for a, b in s[k].items():
                     tot[k][a] = tot[k].get(a, 0) + b
@@ -2044,6 +2286,7 @@ def run_histories(ctx, sc, binp, n, maxlen, cov):
             for key, what, files in s["verdicts"]:
                 ctx.violation(key, what, files)
     cov["histories"] = n
+    cov["hashmap_histories_reread_held_values"] = hold
     cov["history_steps"] = tot["steps"]
     cov["histories_by_family"] = tot["families"]
     cov["history_operations_by_kind_and_element"] = dict(sorted(tot["ops"].items()))
@@ -2134,7 +2377,8 @@ def run(ctx):
         lap("cells")
         n_hist = ctx.n(2000, 200000)
         maxlen = ctx.n(200, 1000)
-        hashes, hsamples = run_histories(ctx, sc, binp, n_hist, maxlen, cov)
+        hold = all(cov["directed_histories"].get(c) == "agrees" for c in HOLD_CELLS)
+        hashes, hsamples = run_histories(ctx, sc, binp, n_hist, maxlen, cov, hold=hold)
         lap("histories")
         cov["phase_seconds"] = phases
         if not ctx.violations:
@@ -2144,7 +2388,7 @@ def run(ctx):
             ctx.require(n_census_clean >= 40, "too few census cells ran natively (%d)" % n_census_clean)
             ctx.require(cov["histories_inconclusive_watchdog"] <= n_hist * 0.02, "too many history batches hit the watchdog")
             ctx.require(len(hashes) >= n_hist * 0.5, "too few distinct non-trivial histories agreed with the model (%d of %d)" % (len(hashes), n_hist))
-            ctx.require(len(cov["histories_touching_element_kind"]) >= 12, "element kinds reached: %s" % sorted(cov["histories_touching_element_kind"]))
+            ctx.require(len(cov["histories_touching_element_kind"]) >= 16, "element kinds reached: %s" % sorted(cov["histories_touching_element_kind"]))
     cov.update({
         "evaluations": len(progs) + n_hist + len(cov["census_sanitizer"]) + len(FAILURE_CELLS) + len(DIRECTED_HISTORIES) + len(DIRECTED_PROGRAMS),
         "distinct_nontrivial": len(hashes) + len(fsets),
